@@ -418,6 +418,8 @@ func (self *visitorUserNode) OnObjectBegin(capacity int) error {
 			if err = self.push(true, false, false, fieldDesc, curNodeLenPos); err != nil {
 				return err
 			}
+			// the members / keys of the new object are resolved through the stack from here on
+			self.globalFieldDesc = nil
 		} else {
 			// case Message, encode Tag、PrefixLen, push MessageDesc、PrefixLen
 			if err = self.p.AppendTag(fieldDesc.Number(), proto.BytesType); err != nil {
@@ -427,6 +429,7 @@ func (self *visitorUserNode) OnObjectBegin(capacity int) error {
 			if err = self.push(false, true, false, fieldDesc, curNodeLenPos); err != nil {
 				return err
 			}
+			self.globalFieldDesc = nil
 		}
 	}
 	return err
@@ -571,6 +574,9 @@ func (self *visitorUserNode) OnArrayBegin(capacity int) error {
 	var err error
 	curNodeLenPos := -1
 	if self.globalFieldDesc != nil {
+		if !self.globalFieldDesc.Type().IsList() {
+			return newError(meta.ErrDismatchType, "param isn't a repeated field", nil)
+		}
 		// PackedList: encode Tag、Len
 		if self.globalFieldDesc.Type().IsPacked() {
 			if err = self.p.AppendTag(self.globalFieldDesc.Number(), proto.BytesType); err != nil {
@@ -581,6 +587,7 @@ func (self *visitorUserNode) OnArrayBegin(capacity int) error {
 		if err = self.push(false, false, true, self.globalFieldDesc, curNodeLenPos); err != nil {
 			return err
 		}
+		self.globalFieldDesc = nil
 	}
 	return err
 }
